@@ -32,8 +32,10 @@ def me_velocity(st, dew, vew, dns, vns, vrsign, vr):
     return v
 
 class Flight:
-    def __init__(self, rng, icao, rx, df=17):
-        self.icao = icao; self.df = df; self.rx = rx
+    def __init__(self, rng, icao, rx, df=17, plain=False):
+        # plain: every position report carries the flight's altitude and the flight does not drift (scenarios that count on
+        # "a position pair gives details"); histories for the tracker properties use the varied form
+        self.icao = icao; self.df = df; self.rx = rx; self.plain = plain
         # start within ~250 km of the receiver
         self.lat = Fr(rx[0]) + Fr(rng.below(4000) - 2000, 1000)
         self.lon = Fr(rx[1]) + Fr(rng.below(4000) - 2000, 1000)
@@ -44,7 +46,7 @@ class Flight:
         # one flight in three heads straight away from the receiver at 2 - 4.5 km per report (inside what CPR pairing tolerates), so that a
         # published aircraft crosses the range limit while every step is far below the jump limit
         self.drift = None
-        if rng.chance(1, 3):
+        if not plain and rng.chance(1, 3):
             dl = float(self.lat) - rx[0]; dn = float(self.lon) - rx[1]
             n = max(1e-6, (dl * dl + dn * dn) ** 0.5)
             k = (20 + rng.below(20)) / 1000.0
@@ -80,7 +82,7 @@ class Flight:
         else: yz, xz = cprspec.encode(self.lat, self.lon, odd)
         # altitude field: mostly the flight's altitude; sometimes "no altitude" (all-zero field), a Q=1 value at or below 0 ft, an illegal
         # Gillham code or another level, so that records with a position but without an altitude in one or both slots occur
-        r = rng.below(16)
+        r = rng.below(16) if not self.plain else 0
         a12 = alt12_of_feet(self.alt) if r < 11 else (0 if r < 13 else rng.choice([0x010, 0x017, 0x00a, 0x9e0, alt12_of_feet(self.alt + 2500)]))
         return self.frame(me_position(self.tc, a12, odd, yz, xz))
 
